@@ -10,6 +10,7 @@ from . import vfcore as V
 DRIVERS = [
     ("ring_driver", "ExtractRing.v", "ring_model.ml", "ring_driver.ml"),
     ("lcm_driver", "ExtractLcm.v", "lcm_model.ml", "lcm_driver.ml"),
+    ("routing_driver", "ExtractRouting.v", "routing_model.ml", "routing_driver.ml"),
     ("observer_driver", "ExtractObserver.v", "observer_model.ml", "observer_driver.ml"),
 ]
 GO_PKGS = ["proxy"]
